@@ -120,6 +120,10 @@ Qed.
 Lemma sdst_shut_inner : forall k s, sdst (shut_inner k s) = sdst s.
 Proof. intros. apply (sb_sdst _ _ (shut_inner_sbt k s)). Qed.
 
+Section Fx.
+Variable fx : bool.
+Local Notation step := (Mx.step fx).
+
 Lemma term_step : forall s t, terminating s = true -> terminating (step s t) = true.
 Proof.
   intros s t H. destruct t as [| |j]; simpl.
@@ -134,6 +138,7 @@ Proof.
     + destruct (i_term i); auto. destruct (i_script i) as [|[b ok|] r]; auto.
       unfold terminating. rewrite sdst_shut_inner. exact H.
     + destruct (hholder s); auto.
+    + destruct (fx && terminating s); auto.
     + destruct ok; auto. unfold terminating in *. destruct (sdst s) eqn:Eg; simpl; [rewrite Eg; exact H | discriminate].
     + pose proof (term_sd_advance s H). destruct (terminated (sd_advance s)); auto.
     + unfold terminating. rewrite sdst_shut_inner. exact H.
@@ -219,9 +224,13 @@ Proof.
       intros Ha. destruct (H Ha) as [A|A]; [left; exact A | right].
       apply (busy_ex_ext (set_inner s j (set_i_pc (ILocked b ok)))); [reflexivity|].
       apply busy_ex_set_inner; auto. intros i0 H0 X. congruence.
-    + intros Ha. destruct (H Ha) as [A|A]; [left; exact A | right].
-      apply (busy_ex_ext (set_inner s j (set_i_pc (IInH b ok)))); [reflexivity|].
-      apply busy_ex_set_inner; auto. intros i0 H0 X. congruence.
+    + destruct (fx && terminating s).
+      * intros Ha. destruct (H Ha) as [A|A]; [left; exact A | right].
+        apply (busy_ex_ext (set_inner s j (set_i_pc IFailRet))); [reflexivity|].
+        apply busy_ex_set_inner; auto. intros i0 H0 X. congruence.
+      * intros Ha. destruct (H Ha) as [A|A]; [left; exact A | right].
+        apply (busy_ex_ext (set_inner s j (set_i_pc (IInH b ok)))); [reflexivity|].
+        apply busy_ex_set_inner; auto. intros i0 H0 X. congruence.
     + intros Ha. destruct (H Ha) as [A|A]; [left; exact A | right].
       apply (busy_ex_ext (set_inner s j (set_i_pc (IUnl b ok)))); [reflexivity|].
       apply busy_ex_set_inner; auto. intros i0 H0 X. congruence.
@@ -297,8 +306,11 @@ Proof.
     + destruct (hholder s); [left; reflexivity|].
       right. eapply (rank_set_inner s j (set_i_pc (ILocked b ok))); [exact En | | reflexivity..].
       unfold irank. rewrite Epc. simpl. lia.
-    + right. eapply (rank_set_inner s j (set_i_pc (IInH b ok))); [exact En | | reflexivity..].
-      unfold irank. rewrite Epc. simpl. lia.
+    + destruct (fx && terminating s).
+      * right. eapply (rank_set_inner s j (set_i_pc IFailRet)); [exact En | | reflexivity..].
+        unfold irank. rewrite Epc. simpl. lia.
+      * right. eapply (rank_set_inner s j (set_i_pc (IInH b ok))); [exact En | | reflexivity..].
+        unfold irank. rewrite Epc. simpl. lia.
     + right. eapply (rank_set_inner s j (set_i_pc (IUnl b ok))); [exact En | | reflexivity..].
       unfold irank. rewrite Epc. simpl. lia.
     + destruct ok.
@@ -385,6 +397,7 @@ Proof.
       destruct (i_script i) as [|[b ok|] r]; simpl; auto.
       rewrite sdst_shut_inner. exact Eg.
     + destruct (hholder s); simpl; auto.
+    + destruct (fx && terminating s); simpl; auto.
     + destruct ok; simpl; auto.
     + destruct (terminated s); simpl; exact Eg.
     + rewrite sdst_shut_inner. exact Eg.
@@ -398,7 +411,7 @@ Proof.
   destruct t as [| |j]; simpl.
   - unfold step_run. rewrite Ep. rewrite Ep. reflexivity.
   - rewrite (q_pcr _ _ (quiet_x s)), Ep. reflexivity.
-  - rewrite (q_pcr _ _ (quiet_inner j s)), Ep. reflexivity.
+  - rewrite (q_pcr _ _ (quiet_inner fx j s)), Ep. reflexivity.
 Qed.
 
 Lemma ph_run : forall n sup sched, Sinv (run step sched (init n sup)) /\ L1 (run step sched (init n sup)).
@@ -476,4 +489,104 @@ Proof.
   induction sched as [|t sched IH]; intros s Hr Htd Ha; [reflexivity|].
   rewrite run_cons. destruct (quiet_state_step s t Hr Htd Ha) as (A & B & C & D).
   rewrite (IH _ A B C). exact D.
+Qed.
+End Fx.
+
+(* ------------------------------------------------------------ repaired wrapper: no handler call begins once the
+   terminating channel is closed — for EVERY state and EVERY schedule (the test of the channel and the call are one
+   atomic step under handlerLock, and the channel is never re-opened) *)
+Lemma hbegun_step_run : forall s, hbegun (step_run s) = hbegun s.
+Proof.
+  intros s. unfold step_run. destruct (pcr s); try destruct (terminating s); simpl; auto.
+  all: destruct (nth_error (sources s) idx) as [cur|]; simpl; auto.
+  all: destruct (match cur with Some k => inner_term s k | None => true end); simpl; auto.
+Qed.
+
+Lemma hbegun_sd_advance : forall s, hbegun (sd_advance s) = hbegun s.
+Proof.
+  intros s. unfold sd_advance. destruct (sdst s) as [[]|]; simpl; auto.
+  destruct (holds_slock s); simpl; auto. apply (sb_hb _ _ (shut_all_sbt (sources s) s)).
+Qed.
+
+Lemma hbegun_shut_inner : forall k s, hbegun (shut_inner k s) = hbegun s.
+Proof. intros. apply (sb_hb _ _ (shut_inner_sbt k s)). Qed.
+
+Lemma hbegun_step_terminating : forall s t, terminating s = true -> hbegun (Mx.step true s t) = hbegun s.
+Proof.
+  intros s t Ht. destruct t as [| |j]; simpl.
+  - apply hbegun_step_run.
+  - unfold step_x. destruct (pcx s); auto.
+    + destruct (sdst s); reflexivity.
+    + pose proof (hbegun_sd_advance s). destruct (terminated (sd_advance s)); simpl; auto.
+  - unfold step_inner. destruct (nth_error (inners s) j) as [i|]; auto.
+    destruct (i_pc i); auto.
+    + destruct (i_term i); auto. destruct (i_script i) as [|[b ok|] r]; auto.
+      rewrite hbegun_shut_inner. reflexivity.
+    + destruct (hholder s); auto.
+    + rewrite Ht. reflexivity.
+    + destruct ok; auto. destruct (sdst s); reflexivity.
+    + pose proof (hbegun_sd_advance s). destruct (terminated (sd_advance s)); simpl; auto.
+    + rewrite hbegun_shut_inner. reflexivity.
+Qed.
+
+Theorem mx_no_call_when_terminating : forall sched s,
+  terminating s = true -> hbegun (run (Mx.step true) sched s) = hbegun s.
+Proof.
+  induction sched as [|t sched IH]; intros s Ht; [reflexivity|].
+  rewrite run_cons. rewrite (IH _ (term_step true s t Ht)). apply hbegun_step_terminating. exact Ht.
+Qed.
+
+Lemma terminated_terminating : forall s, terminated s = true -> terminating s = true.
+Proof. intros s. unfold terminated, terminating. destruct (sdst s) as [[]|]; auto; discriminate. Qed.
+
+(* ------------------------------------------------------------ the wrapper before the repair: a reachable state with
+   Run returned, Terminated reached and every inner source shut down, after which a handler call begins
+   (source 0 inside the handler, source 1 waiting for handlerLock, complete Shutdown, Run returns) *)
+Definition late_sched : list tid :=
+  repeat TRun 8 ++ [TIn 0; TIn 0; TIn 0; TIn 1] ++ repeat TX 4 ++ [TRun; TRun].
+Definition late_sup : list (list iev) := [[IBlock 1 true]; [IBlock 2 true]].
+Definition late_cont : list tid := [TIn 0; TIn 1; TIn 1].
+
+Lemma mx_unfixed_late_call :
+  let s := run (Mx.step false) late_sched (init 2 late_sup) in
+  returned s = true /\ terminated s = true /\ map i_term (inners s) = [true; true] /\
+  hbegun (run (Mx.step false) late_cont s) = S (hbegun s) /\
+  log (run (Mx.step false) late_cont s) = EHBegin 1 2 :: EPoint 25 :: EPoint 26 :: EHEnd 0 1 true :: log s /\
+  hd (EPoint 0) (log s) = ERet.
+Proof. vm_compute. repeat split; reflexivity. Qed.
+
+(* the same schedule on the repaired wrapper: the waiting source gives up, no call begins *)
+Lemma mx_fixed_same_schedule :
+  let s := run (Mx.step true) late_sched (init 2 late_sup) in
+  returned s = true /\ terminated s = true /\
+  hbegun (run (Mx.step true) late_cont s) = hbegun s /\
+  log (run (Mx.step true) late_cont s) = EPoint 25 :: EPoint 26 :: EHEnd 0 1 true :: log s /\
+  map i_pc (inners (run (Mx.step true) (late_cont ++ [TIn 1; TIn 1; TIn 0; TIn 0]) s)) = [IRet; IRet].
+Proof. vm_compute. repeat split; reflexivity. Qed.
+
+(* the late call after a handler FAILURE: source 0's call returns an error, its goroutine performs the whole Shutdown,
+   Run returns; source 1, which was waiting for handlerLock, then calls the handler *)
+Definition late_sched_fail : list tid :=
+  repeat TRun 8 ++ [TIn 0; TIn 0; TIn 0; TIn 1] ++ repeat (TIn 0) 5 ++ [TRun; TRun].
+Definition late_sup_fail : list (list iev) := [[IBlock 1 false]; [IBlock 2 true]].
+
+Lemma mx_unfixed_late_call_fail :
+  let s := run (Mx.step false) late_sched_fail (init 2 late_sup_fail) in
+  failed s = true /\ returned s = true /\ terminated s = true /\ map i_term (inners s) = [true; true] /\
+  hbegun (run (Mx.step false) [TIn 1; TIn 1] s) = S (hbegun s) /\
+  hd ERet (log (run (Mx.step false) [TIn 1; TIn 1] s)) = EHBegin 1 2.
+Proof. vm_compute. repeat split; reflexivity. Qed.
+
+Lemma mx_fixed_same_schedule_fail :
+  let s := run (Mx.step true) late_sched_fail (init 2 late_sup_fail) in
+  failed s = true /\ returned s = true /\ terminated s = true /\
+  hbegun (run (Mx.step true) [TIn 1; TIn 1; TIn 1; TIn 1] s) = hbegun s /\
+  map i_pc (inners (run (Mx.step true) [TIn 1; TIn 1; TIn 1; TIn 1; TIn 0; TIn 0] s)) = [IRet; IRet].
+Proof. vm_compute. repeat split; reflexivity. Qed.
+
+Lemma all_term_of_map : forall s n, map i_term (inners s) = repeat true n ->
+  forall k i, nth_error (inners s) k = Some i -> i_term i = true.
+Proof.
+  intros s n E k i H. apply (map_nth_error i_term) in H. rewrite E in H.
+  apply nth_error_In in H. apply repeat_spec in H. exact H.
 Qed.
